@@ -119,6 +119,22 @@ func c11(r *sim.R) *sim.Violation {
 		}
 		r.Probe("day_directory_without_metadata")
 	}
+	// one run in five (databases of more than 40 days: several work bulks): the metadata of an inner
+	// day is cut off, so that the worker that gets this day fails. Whatever the outcome is with one
+	// worker (at present the whole query fails: a C06 finding), it must be the same with any number
+	// of workers and in either memory mode - never an error here and a partial result there
+	damaged := false
+	if nDays > 40 && bare == 0 && r.T.Draw(5) == 0 {
+		day := model.DayOf(base + int64(1+r.T.Draw(nDays-2))*86400)
+		if names := dbcheck.DayDirNames(wd.fs, tree, rel, "eth0", day); len(names) == 1 {
+			mp := dbcheck.DayPath(rel, "eth0", day, names[0]) + "/.blockmeta"
+			if b, ok := wd.fs.ReadRaw(tree, mp); ok && len(b) > 20 {
+				wd.fs.WriteRaw(tree, mp, b[:20])
+				damaged = true
+				r.Fault("stored-byte-damage:truncated-metadata-of-an-inner-day")
+			}
+		}
+	}
 	q := model.GenQuery(r.T, m)
 	q.First, q.Last = 1, 4102444800
 	q.Ifaces = []string{"eth0"}
@@ -131,6 +147,7 @@ func c11(r *sim.R) *sim.Violation {
 	r.Event("%s over %d days (+%d day directories without metadata)", describe(q), nDays, bare)
 	want, wantTot := q.Eval(m, false)
 	var ref []string
+	var refOutcome string
 	nCfg := 3 + r.T.Draw(3)
 	for c := 0; c < nCfg; c++ {
 		workers := []int{1, 2, 3, 4, 8, 16}[r.T.Draw(6)]
@@ -152,6 +169,25 @@ func c11(r *sim.R) *sim.Violation {
 		sig := fmt.Sprintf("workers>1=%v lowmem=%v", workers > 1, lowMem)
 		if stall != "" {
 			return r.Report(&sim.Violation{Clause: "does-not-terminate", Signature: sig, Detail: fmt.Sprintf("%s (workers=%d lowmem=%v, %s): %s", describe(q), workers, lowMem, sc.Strategy(), stall)})
+		}
+		if damaged {
+			outcome := "error"
+			if err == nil {
+				outcome = "rows:\n" + strings.Join(canonRows(q, res.Rows), "\n")
+			}
+			if c == 0 {
+				refOutcome = outcome
+			} else if outcome != refOutcome {
+				short := func(o string) string {
+					if len(o) > 300 {
+						return o[:300] + "..."
+					}
+					return o
+				}
+				return r.Report(&sim.Violation{Clause: "outcome-depends-on-configuration", Signature: sig + ", a worker fails on an undecodable day",
+					Detail: fmt.Sprintf("%s over %d days, metadata of an inner day cut off: one worker, default mode: %s\nworkers=%d lowmem=%v schedule %s: %s", describe(q), nDays, short(refOutcome), workers, lowMem, sc.Strategy(), short(outcome))})
+			}
+			continue
 		}
 		if err != nil {
 			return r.Report(&sim.Violation{Clause: "query-fails", Signature: sig, Detail: fmt.Sprintf("%s (workers=%d lowmem=%v): %v", describe(q), workers, lowMem, err)})
